@@ -192,48 +192,37 @@ def write(tabs, traces=None, path=None):
     return names, info, traces
 
 
-def write_obligations(tabs, info, path=None):
-    """IRGen/WrapObl.lean: `c01OK P_x W_x = true` by kernel evaluation for every protocol of the wrapC01 fragment.
-    returns (theorem names, [(protocol, why it can no longer be stated)])"""
-    path = path or os.path.join(vlib.LEAN, 'IRGen', 'WrapObl.lean')
+KINDS = {'c01': ('wrapC01', 'c01OK'), 'c03': ('wrapC03', 'c03OK'), 'c05': ('wrapC05', 'c05OK'), 'c07': ('wrapC07', 'c07OK')}
+
+
+def write_obligations(tabs, info, kinds=('c01', 'c03', 'c05', 'c07')):
+    """IRGen/WrapObl_<kind>.lean: `<kind>OK P_x W_x = true` by kernel evaluation for every protocol of the fragment of
+    that kind (tools/fragment.json).  returns (theorem names, [(protocol, why it can no longer be stated)], modules)"""
     frag = json.load(open(os.path.join(vlib.VERIF, 'tools', 'fragment.json')))
-    lines = ['import IRGen.Tables', 'import IRGen.Wrap', 'import IRModel.Props.Wrapper',
-             '/-! GENERATED by tools/wrapgen.py on every run: wrapper obligations of the parameter-level C01 theorem. -/',
-             'namespace IRGen.WrapObl', 'open IRModel IRModel.Wrap', '']
-    names, missing = [], []
-    for n in frag.get('wrapC01', []):
-        inf = info.get(n)
-        if not inf or not inf.get('emitted'):
-            missing.append((n, 'no wrapper could be generated: encode: %s; decode: %s' % ((inf or {}).get('encode'), (inf or {}).get('decode'))))
-            continue
-        ident = extract.lean_ident(n)[2:]
-        thm = 'c01w_%s' % ident
-        names.append('IRGen.WrapObl.' + thm)
-        lines.append('theorem %s : c01OK IRGen.P_%s IRGen.W_%s = true := by decide +kernel' % (thm, ident, ident))
-    for n in frag.get('wrapC07', []):
-        inf = info.get(n)
-        if not inf or not inf.get('emitted'):
-            missing.append((n, 'no wrapper could be generated: encode: %s; decode: %s' % ((inf or {}).get('encode'), (inf or {}).get('decode'))))
-            continue
-        ident = extract.lean_ident(n)[2:]
-        thm = 'c07w_%s' % ident
-        names.append('IRGen.WrapObl.' + thm)
-        lines.append('theorem %s : c07OK IRGen.P_%s IRGen.W_%s = true := by decide +kernel' % (thm, ident, ident))
-    for n in frag.get('wrapC05', []):
-        inf = info.get(n)
-        if not inf or not inf.get('emitted'):
-            missing.append((n, 'no wrapper could be generated: encode: %s; decode: %s' % ((inf or {}).get('encode'), (inf or {}).get('decode'))))
-            continue
-        ident = extract.lean_ident(n)[2:]
-        thm = 'c05w_%s' % ident
-        names.append('IRGen.WrapObl.' + thm)
-        lines.append('theorem %s : c05OK IRGen.P_%s IRGen.W_%s = true := by decide +kernel' % (thm, ident, ident))
-    lines.append('end IRGen.WrapObl')
-    src = '\n'.join(lines) + '\n'
-    old = open(path).read() if os.path.exists(path) else None
-    if old != src:
-        open(path, 'w').write(src)
-    return names, missing
+    names, missing, mods = [], [], []
+    for kind in kinds:
+        fkey, fn = KINDS[kind]
+        mod = 'WrapObl_' + kind
+        path = os.path.join(vlib.LEAN, 'IRGen', mod + '.lean')
+        lines = ['import IRGen.Tables', 'import IRGen.Wrap', 'import IRModel.Props.Wrapper',
+                 '/-! GENERATED by tools/wrapgen.py on every run: wrapper obligations `%s` of the wrapper-level theorems. -/' % fn,
+                 'namespace IRGen.WrapObl', 'open IRModel IRModel.Wrap', '']
+        for n in frag.get(fkey, []):
+            inf = info.get(n)
+            if not inf or not inf.get('emitted'):
+                missing.append((kind + 'w_' + n, 'no wrapper could be generated: encode: %s; decode: %s' % ((inf or {}).get('encode'), (inf or {}).get('decode'))))
+                continue
+            ident = extract.lean_ident(n)[2:]
+            thm = '%sw_%s' % (kind, ident)
+            names.append('IRGen.WrapObl.' + thm)
+            lines.append('theorem %s : %s IRGen.P_%s IRGen.W_%s = true := by decide +kernel' % (thm, fn, ident, ident))
+        lines.append('end IRGen.WrapObl')
+        src = '\n'.join(lines) + '\n'
+        old = open(path).read() if os.path.exists(path) else None
+        if old != src:
+            open(path, 'w').write(src)
+        mods.append('IRGen.' + mod)
+    return names, missing, mods
 
 
 if __name__ == '__main__':
